@@ -1,7 +1,11 @@
-"""C05 - best-so-far never worsens; counters, monitors and callbacks are faithful.
-State machine over Step / Solve / Set* / Finalize histories (vp.solver_machine)."""
+"""C05 - stopping discipline: limits, termination and exit requests are honoured.
+State machine over Step / Solve / Set* / Finalize histories (vp.solver_machine), plus the one-call
+wrappers' warnflag (fmin, fmin_powell, diffev, diffev2) judged from the harness's own counts."""
+from hypothesis import strategies as st
 from vp.runner import Test, fold_run
 from vp import solver_machine as sm
+from vp import lab
+from vp.util import FL, finite_floats
 
 PROP = 'C05'
 RULE = ("RuleBasedStateMachine histories for DE, DE2, Nelder-Mead and Powell: header (solver, dim 1-4, cost family, "
@@ -9,16 +13,104 @@ RULE = ("RuleBasedStateMachine histories for DE, DE2, Nelder-Mead and Powell: he
         "step(n), solve(g), limits(g,e,new), constraints, penalty, ranges, reducer, term, evalmon(kind,new), "
         "stepmon(kind), finalize; invariants after every operation against the harness's own recorder "
         "(real cost calls, callback invocations). Non-trivial: the history contains a re-decoration or a "
-        "continue-after-stop and >= 3 completed iterations; distinct by canonical JSON of the whole trace.")
+        "continue-after-stop and >= 3 completed iterations; distinct by canonical JSON of the whole trace.  "
+        "wrapper: fmin / fmin_powell / diffev / diffev2 with maxiter 0-12 and maxfun None or 1..80, optional bounds, "
+        "catalog constraint and penalty; non-trivial: a limit was reached (warnflag != 0 or a count at its limit).")
 ASSUME = ["constraints drawn are deterministic and idempotent (catalog); NaN-valued costs are outside the domain",
           "the step monitor is swapped only with new=False (history carried over); new=True on the evaluation monitor "
           "ends the 'holds every call' relation for that monitor",
-          "monotonicity is asserted within segments of unchanged objective"]
+          "monotonicity is asserted within segments of unchanged objective",
+          "wrapper: with maxfun=None the solver default (>= 200 x dim) cannot be reached within 12 iterations, so "
+          "warnflag 1 is then never justified; 'one iteration's worth' of evaluations is NP for DE and dim+2 for "
+          "Nelder-Mead (reflection, expansion/contraction or a shrink of dim vertices), not bounded for Powell"]
 
 _run = fold_run(lambda case, ctx: sm.SolverState(case, ctx, PROP), lambda s, op, ctx: s.apply(op), lambda s: s.close())
 
+
+
+# ----------------------------------------------------------------------------- wrappers' warnflag
+@st.composite
+def wrapper_cases(draw, tier='quick'):
+    w = draw(st.sampled_from(['fmin', 'fmin_powell', 'diffev', 'diffev2']))
+    dim = draw(st.integers(1, 3))
+    c = dict(wrapper=w, dim=dim, seed=draw(st.integers(0, 2 ** 20)))
+    c['cost'] = draw(lab.cost_specs(dim, families=('quad', 'rosen', 'abs', 'cos', 'plateau')))
+    lo, hi = draw(lab.boxes(dim, integer=True))
+    hi = [h if h > l else l + 1.0 for l, h in zip(lo, hi)]
+    c['bounds'] = dict(lo=lo, hi=hi) if draw(st.booleans()) else None
+    if c['bounds'] and draw(st.integers(0, 2)) == 0:
+        spec = draw(lab.constraint_specs(dim, box=(lo, hi), symbolic=False))
+        if lab.box_compatible(spec, lo, hi):
+            c['constraint'] = spec
+    if draw(st.integers(0, 3)) == 0:
+        c['penalty'] = draw(lab.penalty_specs(dim))
+    if c['bounds']:
+        fr = draw(st.lists(st.sampled_from([0.0, 0.25, 0.5, 1.0]), min_size=dim, max_size=dim))
+        c['x0'] = [l + f * (h - l) for l, h, f in zip(lo, hi, fr)]
+    else:
+        c['x0'] = draw(st.lists(finite_floats(-3, 3), min_size=dim, max_size=dim))
+    if w in ('diffev', 'diffev2'):
+        c['npop'] = draw(st.integers(4, 8))
+    c['maxiter'] = draw(st.sampled_from([0, 1, 1, 2, 3, 5, 8, 12]))
+    c['maxfun'] = draw(st.one_of(st.none(), st.integers(1, 80)))
+    c['tight_tol'] = draw(st.booleans())       # very small ftol/xtol: the run goes on until a limit stops it
+    return c
+
+
+def run_wrapper(case, ctx):
+    import mystic.solvers as ms
+    lab.reset_registry(); lab.seed_rng(case['seed'])
+    w = case['wrapper']; dim = case['dim']
+    cost = lab.Cost('c0', case['cost'])
+    con = lab.Constraint(case['constraint']) if case.get('constraint') else None
+    pen = lab.make_penalty(case.get('penalty'))
+    kw = dict(full_output=1, disp=0, maxiter=case['maxiter'], maxfun=case['maxfun'])
+    if con is not None: kw['constraints'] = con
+    if pen is not None: kw['penalty'] = pen
+    b = case.get('bounds')
+    bounds = list(zip(FL(b['lo']), FL(b['hi']))) if b else None
+    cbs = []
+    kw['callback'] = lambda x: cbs.append(1)
+    if case['tight_tol']:
+        if w in ('fmin', 'fmin_powell'):
+            kw['ftol'] = 1e-300
+            if w == 'fmin': kw['xtol'] = 1e-300
+        else:
+            kw['ftol'] = 1e-300; kw['gtol'] = 10 ** 6
+    if w in ('fmin', 'fmin_powell'):
+        res = getattr(ms, w)(cost, FL(case['x0']), bounds=bounds, **kw)
+    else:
+        res = getattr(ms, w)(cost, FL(case['x0']), case['npop'], bounds=bounds, **kw)
+    x, fval, iters, funcalls, warnflag = res[:5]
+    calls = cost.ncalls(); its = max(0, len(cbs) - 1)
+    mi = case['maxiter']; mf = case['maxfun']
+    hit_fun = mf is not None and calls >= mf
+    hit_iter = its >= mi
+    det = lambda: dict(wrapper=w, warnflag=int(warnflag), real_calls=calls, iterations=its, reported=[int(iters), int(funcalls)],
+                       maxiter=mi, maxfun=mf)
+    ctx.label('wrapper:' + w, 'warnflag:%d' % int(warnflag), 'maxfun:' + ('none' if mf is None else 'given'))
+    # the flag names a condition that is true of the final state (judged from the harness's own counts)
+    if int(warnflag) == 1:
+        ctx.expect(hit_fun, 'C05.warnflag', det)
+    elif int(warnflag) == 2:
+        ctx.expect(hit_iter and not hit_fun, 'C05.warnflag', det)
+    else:
+        ctx.expect(int(warnflag) == 0 and not hit_fun and not hit_iter, 'C05.warnflag', det)
+    # generations never exceed the generation limit; evaluations exceed theirs by less than one iteration's worth
+    # (only after the initial evaluation: the first population / simplex is always evaluated)
+    ctx.expect(its <= max(mi, 0), 'C05.bounds', det)
+    if mf is not None and its >= 1:
+        worth = {'diffev': case.get('npop'), 'diffev2': case.get('npop'), 'fmin': dim + 2}.get(w)
+        if worth is not None:
+            init = case['npop'] if w in ('diffev', 'diffev2') else dim + 1
+            ctx.expect(calls < max(mf, init) + worth, 'C05.bounds', lambda: dict(det(), one_iteration=worth, initial=init))
+    ctx.nontrivial(int(warnflag) != 0 or hit_fun or hit_iter)
+
+
 TESTS = [Test('machine', _run, machine=sm.machine_factory(PROP),
               examples={'quick': 3200, 'thorough': 60000}, steps={'quick': 16, 'thorough': 40},
-              shrink={'quick': True, 'thorough': True})]
+              shrink={'quick': True, 'thorough': True}),
+         Test('wrapper', run_wrapper, strategy=lambda tier: wrapper_cases(tier),
+              examples={'quick': 2400, 'thorough': 60000})]
 
 KNOWN = {}
